@@ -478,9 +478,29 @@ def sec_relative(cx, tier, seed, param):
         cx.col.sample({"section": "relative", "platform": "facebook", "url": "/nom/photos/a.456/123", "allow_relative_urls": True})
 
 
+# one URL of every documented route (deep routes included, whatever the depth bound of the tier): every record class is built, its canonical URL re-parsed
+ROUTE_SAMPLES = {
+    "facebook": ["https://www.facebook.com/people/Some-Name/100012345678901", "https://www.facebook.com/some.handle", "https://www.facebook.com/profile.php?id=100012345678901",
+                 "https://www.facebook.com/groups/1234567890/posts/9876543210", "https://www.facebook.com/groups/some.group/permalink/9876543210/",
+                 "https://www.facebook.com/some.page/posts/9876543210", "https://www.facebook.com/some.page/photos/a.111/222/", "https://www.facebook.com/photo.php?fbid=222&set=a.111",
+                 "https://www.facebook.com/some.page/videos/123456789/", "https://www.facebook.com/watch/?v=123456789", "https://www.facebook.com/permalink.php?story_fbid=1&id=2",
+                 "https://m.facebook.com/story.php?story_fbid=1&id=2", "https://www.facebook.com/groups/1234567890/"],
+    "youtube": ["https://www.youtube.com/watch?v=dQw4w9WgXcQ&list=PL1", "https://youtu.be/dQw4w9WgXcQ", "https://www.youtube.com/embed/dQw4w9WgXcQ", "https://www.youtube.com/shorts/dQw4w9WgXcQ",
+                "https://www.youtube.com/channel/UCWvUxN9LAjJ-sTc5JJ3gEyA/videos", "https://www.youtube.com/user/someuser", "https://www.youtube.com/c/SomeChannel", "https://www.youtube.com/@handle",
+                "https://www.youtube.com/v/dQw4w9WgXcQ", "https://www.youtube.com/attribution_link?u=%2Fwatch%3Fv%3DdQw4w9WgXcQ", "https://www.youtube.com/SomeChannel"],
+    "twitter": ["https://twitter.com/medialab/status/1234567890123", "https://twitter.com/medialab", "https://twitter.com/i/lists/12345", "https://twitter.com/#!/medialab/status/1"],
+    "instagram": ["https://www.instagram.com/p/BxKRx5CHn5i/", "https://www.instagram.com/some.user/", "https://www.instagram.com/some.user/p/BxKRx5CHn5i/", "https://www.instagram.com/reel/BxKRx5CHn5i/"],
+    "telegram": ["https://t.me/s/channelname/123", "https://t.me/channelname", "https://t.me/joinchat/AAAAAEkk2WdoDrB4-Q8-gg", "https://telegram.me/channelname/45"],
+    "google": ["https://docs.google.com/spreadsheets/d/1Q9sJtAb1BZhUMjxCLMrVASx3AoNDp5iV3VkbPjlg/edit#gid=0", "https://docs.google.com/document/d/e/2PACX-1vabcDEF/pub",
+               "https://docs.google.com/presentation/d/1abcDEF/edit", "https://drive.google.com/file/d/1abcDEF/view"],
+}
+
+
 def sec_trunc(cx, tier, seed, param):
     for platform in PLATFORMS:
         for u in sorted(R.TRUNCATED_SET[platform]):
+            check_platform(cx, platform, u)
+        for u in ROUTE_SAMPLES[platform]:
             check_platform(cx, platform, u)
     cx.col.sample({"section": "truncated", "urls": ["youtu.be/", "twitter.com/i", "t.me/s", "facebook.com/groups/"]})
 
